@@ -23,6 +23,40 @@ def answer(sf, K, call):
     return do_call(sf, call)
 
 
+def _history(sf, raw):
+    from . import histsim
+    ops, passive = pickle.loads(raw)
+    return histsim.execute(sf, ops, passive)
+
+
+def _presets(sf, raw):
+    from . import histsim
+    return histsim.pristine_presets(sf)
+
+
+def sim_loop(sf):
+    """Simulated-caller server: fixed-size header, raw payload in, raw result out; nothing is
+    unpickled in this process (see procs.fork_raw)."""
+    import struct
+    from . import histsim          # noqa: F401  (imported before the first fork, like everything else)
+    from .procs import _send, fork_raw, HarnessTimeout
+    inp, out = sys.stdin.buffer, sys.stdout.buffer
+    _send(out, ("hello", sf.__file__))
+    while True:
+        kind = inp.read(1)
+        if not kind:
+            return
+        n, timeout = struct.unpack("<Id", inp.read(12))
+        raw = inp.read(n)
+        try:
+            data = fork_raw(_history if kind == b"H" else _presets, sf, raw, timeout=timeout)
+        except HarnessTimeout:
+            data = b""
+        out.write(struct.pack("<I", len(data)))
+        out.write(data)
+        out.flush()
+
+
 def main():
     sf = env.import_sut()
     if "--once" in sys.argv:
@@ -34,6 +68,8 @@ def main():
         ops, passive = pickle.loads(sys.stdin.buffer.read())
         sys.stdout.buffer.write(pickle.dumps(histsim.execute(sf, ops, passive), protocol=4))
         return
+    if "--sim" in sys.argv:
+        return sim_loop(sf)
     from .procs import _recv, _send, fork_call
     inp, out = sys.stdin.buffer, sys.stdout.buffer
     _send(out, ("hello", sf.__file__))
